@@ -12,7 +12,7 @@ from rv.harness import exact
 
 LEVEL = "exploration"
 RULE = ("every algorithm (11 partitioners, 5 packers, 3 coverers; exact ones inside the cost envelope) x generated inputs of the C01/C03/C05 classes; "
-        "each case is executed with all 10 output types (every 15th case: ckk / snp / complete greedy on 9-11 items, full partition vs Sums / SortedSums only); non-trivial = at least two bins with different sums; distinct on (algorithm, config, size, value sequence)")
+        "each case is executed with all 10 output types (every 5th case: ckk / snp / complete greedy on 9-12 items, full partition vs one sums-only type); non-trivial = at least two bins with different sums; distinct on (algorithm, config, size, value sequence)")
 ASSUMPTIONS = ["in situ: on every third case the contents-keeping manager's operations are hooked and each bins-array they touch is checked (sum of every bin == total value of its recorded items)", "largest/smallest/extreme/difference are undefined for zero bins and skipped there", "bin-completion with list/array presentation (names: C07)"]
 FLOORS = {"quick": {"distinct_nontrivial": 800}, "thorough": {"distinct_nontrivial": 4000}}
 SUMS_TYPES = ("Sums", "SortedSums", "LargestSum", "SmallestSum", "ExtremeSums", "Difference", "BinCount")
@@ -96,14 +96,15 @@ def judge(case, ctx):
 
 
 def draw(rng, i):
-    if i % 15 == 14:
-        # the search algorithms at 9-11 items: the sums-only and the contents-keeping manager must end on the same answer although they de-duplicate
-        # differently; only the pair (full partition, Sums / SortedSums) is compared here to keep the case affordable
-        alg = rng.choice(["ckk", "ckk", "snp", "cg"])
-        k = rng.choice([3, 4, 4])
-        n = rng.randint(9, 10 if alg != "cg" else 11)
-        case = {"kind": "partition", "alg": alg, "k": k, "values": [rng.randint(1, rng.choice([12, 50, 50, 1000])) for _ in range(n)], "cls": "search_9_11_items",
-                "pres": "list", "pres_seed": 0, "only_types": ["Sums", "SortedSums"]}
+    if i % 5 == 4:
+        # the search algorithms at 9-12 items: the sums-only and the contents-keeping manager are separate code paths inside the searches and must end on the same answer
+        # (they de-duplicate differently; a shortcut may be taken on one path only); only the pair (full partition, one sums-only type) is compared to keep the case affordable
+        alg = rng.choice(["ckk", "ckk", "snp", "snp", "snp", "cg"])
+        k = rng.choice([3, 4, 4]) if alg != "snp" else rng.choice([3, 3, 4])
+        n = rng.randint(9, 10 if alg != "cg" else 11) if alg != "snp" else rng.randint(10, 12 if k == 3 else 11)
+        top = rng.choice([12, 50, 50, 1000]) if alg != "snp" else rng.choice([20, 20, 30, 50])
+        case = {"kind": "partition", "alg": alg, "k": k, "values": [rng.randint(1, top) for _ in range(n)], "cls": "search_9_12_items",
+                "pres": "list", "pres_seed": 0, "only_types": [rng.choice(["Sums", "Sums", "SortedSums", "Difference"])]}
         if alg == "cg":
             case["objective"] = [rng.choice(["maxmin", "minmax", "diff"]), None]
             case["cg_mask"] = rng.choice([11, 15, 3, rng.randrange(16)])
